@@ -279,6 +279,79 @@ fn is_extreme(k: Kind, t: &str) -> bool {
     }
 }
 
+// ---- exact reference for "numbers keep their value" on decimal texts that are not the shortest spelling of a float.
+// The oracle does not call `str::parse::<f32>` (that is what the extractors use): it compares the decimal text, digit by
+// digit, with the exact decimal expansions of the mid-points between neighbouring floats (every f32 mid-point is an f64,
+// and `{:.N}` prints an f64 exactly).
+
+/// Compare two non-negative plain decimals ("123.4500") exactly.
+fn dec_cmp(a: &str, b: &str) -> std::cmp::Ordering {
+    let split = |s: &str| -> (String, String) {
+        let (i, f) = s.split_once('.').unwrap_or((s, ""));
+        (i.trim_start_matches('0').to_string(), f.trim_end_matches('0').to_string())
+    };
+    let ((ai, af), (bi, bf)) = (split(a), split(b));
+    ai.len().cmp(&bi.len()).then_with(|| ai.cmp(&bi)).then_with(|| {
+        let n = af.len().max(bf.len());
+        format!("{af:0<n$}").cmp(&format!("{bf:0<n$}"))
+    })
+}
+
+/// The f32 nearest to a plain decimal text (ties to even), for magnitudes whose mid-points print exactly with 200 digits.
+fn nearest_f32(text: &str) -> Option<f32> {
+    let (neg, mag) = match text.strip_prefix('-') {
+        Some(m) => (true, m),
+        None => (false, text),
+    };
+    if mag.is_empty() || !mag.bytes().all(|b| b.is_ascii_digit() || b == b'.') || mag.matches('.').count() > 1 {
+        return None;
+    }
+    let approx = mag.parse::<f64>().ok()?;
+    if !(1e-9..1e15).contains(&approx) {
+        return None;
+    }
+    let mut c = approx as f32; // within one step of the answer
+    for _ in 0..3 {
+        let (lo, hi) = (f32::from_bits(c.to_bits() - 1), f32::from_bits(c.to_bits() + 1));
+        let mid = |x: f32, y: f32| format!("{:.200}", (x as f64 + y as f64) / 2.0);
+        let even = |x: f32, y: f32| if x.to_bits() % 2 == 0 { x } else { y };
+        match dec_cmp(mag, &mid(c, hi)) {
+            std::cmp::Ordering::Greater => { c = hi; continue; }
+            std::cmp::Ordering::Equal => { c = even(c, hi); break; }
+            _ => {}
+        }
+        match dec_cmp(mag, &mid(lo, c)) {
+            std::cmp::Ordering::Less => { c = lo; continue; }
+            std::cmp::Ordering::Equal => { c = even(lo, c); break; }
+            _ => break,
+        }
+    }
+    Some(if neg { -c } else { c })
+}
+
+/// A decimal text of 20-60 digits that sits exactly on, just above or just below the mid-point between two neighbouring
+/// f32 values (parsing it through an f64 first rounds twice).
+fn f32_near_midpoint(bits: u32, which: u8) -> String {
+    let exp = 107 + (bits >> 23) % 60; // 2^-20 .. 2^39
+    let a = f32::from_bits((exp << 23) | (bits & 0x7f_ffff));
+    let b = f32::from_bits(a.to_bits() + 1);
+    let exact = format!("{:.200}", (a as f64 + b as f64) / 2.0);
+    let exact = exact.trim_end_matches('0').trim_end_matches('.').to_string();
+    let exact = if exact.contains('.') { exact } else { format!("{exact}.0") };
+    let text = match which % 3 {
+        0 => exact,
+        1 => format!("{exact}0000000001"),
+        _ => {
+            // just below: decrement the last digit (non-zero by construction), then nines
+            let mut d = exact.into_bytes();
+            let last = d.len() - 1;
+            if d[last] == b'0' { d.push(b'0'); } else { d[last] -= 1; }
+            format!("{}9999999999", String::from_utf8(d).unwrap())
+        }
+    };
+    if bits & 0x8000_0000 != 0 { format!("-{text}") } else { text }
+}
+
 const BAD: &[&str] = &[
     "abc", "", "-", "1.5x", "%FF", "%C3%28", "99999999999999999999999999999999999999999999", "tru", "١٢",
     // undecodable bytes *after* valid escapes and raw multi-byte characters (offsets into the decoded bytes differ
@@ -296,7 +369,12 @@ const TRAILERS: &[(&str, bool)] = &[
 const CT_TYPES: &[&str] = &["application", "text", "model", "image", "multipart"];
 const CT_SUB: &[&str] = &["json", "x-www-form-urlencoded", "ld", "vnd.api", "gltf", "plain", "xml"];
 const CT_SUFFIX: &[&str] = &["", "+json", "+xml"];
-const CT_PARAMS: &[&str] = &["", "; charset=utf-8", ";charset=UTF-8; boundary=x"];
+// (parameters never decide the media type, not even when their values spell an acceptable one)
+const CT_PARAMS: &[&str] = &[
+    "", "; charset=utf-8", ";charset=UTF-8; boundary=x",
+    "; profile=hal+json", "; charset=utf-8; v=1+json", "; x=\"application/json\"", "; t=json", "; x=\"application/x-www-form-urlencoded\"",
+    ";a=x-www-form-urlencoded",
+];
 
 fn content_type(m: &Malform, channel: Channel) -> (Option<String>, bool /* acceptable per docs */) {
     let default = match channel {
@@ -736,6 +814,30 @@ fn run(c: &Case) -> CaseResult {
     let mut expected: Vec<(&'static str, Txt)> = fields.iter().map(|(n, _)| (*n, vec![])).collect();
     for (i, t) in &texts {
         expected[*i].1 = t.clone();
+        if fields[*i].1 == Kind::F32 {
+            // a decimal text that is not the shortest spelling of an f32 denotes the nearest f32 (exact reference)
+            for e in expected[*i].1.iter_mut() {
+                if let Some(f) = nearest_f32(e) {
+                    if f.to_string() != *e {
+                        // JSON numbers reach an f32 field through an f64 (serde_json's number model): the value rounded
+                        // twice is accepted there as well, and labelled
+                        let twice = e.parse::<f64>().map(|x| (x as f32).to_string()).unwrap_or_default();
+                        let name = fields[*i].0;
+                        let got_twice = c.channel == Channel::Json
+                            && twice != f.to_string()
+                            && matches!(&got, Ok(v) if v.iter().any(|(n, t)| *n == name && t.len() == 1 && t[0] == twice));
+                        if got_twice {
+                            *e = twice;
+                            info.lab("json:f32-rounded-twice(serde_json number model)");
+                            continue;
+                        }
+                        *e = f.to_string();
+                        info.lab(format!("{chan}:f32-long-decimal-near-midpoint"));
+                        info.set_nontrivial(true);
+                    }
+                }
+            }
+        }
     }
     match (&got, expect_err) {
         (Ok(v), None) => {
@@ -845,9 +947,13 @@ fn scalar(k: Kind) -> BoxedStrategy<Vec<String>> {
         Kind::I128 => one(prop_oneof![any::<i128>(), Just(i128::MIN), Just(i128::MAX)]),
         // (by construction, no rejection: a float that is not finite or does not survive the JSON text round trip is
         // replaced by one that is derived from its bits and does)
-        Kind::F32 => one(any::<f32>().prop_map(|f| {
-            if f.is_finite() && serde_json::from_str::<f32>(&f.to_string()).ok() == Some(f) { f } else { (f.to_bits() % 100_000) as f32 / 8.0 - 1000.0 }
-        })),
+        Kind::F32 => prop_oneof![
+            7 => one(any::<f32>().prop_map(|f| {
+                if f.is_finite() && serde_json::from_str::<f32>(&f.to_string()).ok() == Some(f) { f } else { (f.to_bits() % 100_000) as f32 / 8.0 - 1000.0 }
+            })),
+            1 => (any::<u32>(), any::<u8>()).prop_map(|(bits, which)| vec![f32_near_midpoint(bits, which)]),
+        ]
+        .boxed(),
         Kind::F64 => one(any::<f64>().prop_map(|f| {
             if f.is_finite() && serde_json::from_str::<f64>(&f.to_string()).ok() == Some(f) { f } else { (f.to_bits() % 10_000_000) as f64 / 16.0 - 100_000.0 }
         })),
@@ -998,7 +1104,7 @@ pub fn case_from_bytes(data: &[u8]) -> Case {
             Kind::F32 => {
                 let f = f32::from_bits(num(&mut b) as u32);
                 let f = if f.is_finite() && serde_json::from_str::<f32>(&f.to_string()).ok() == Some(f) { f } else { 1.5 };
-                vec![f.to_string()]
+                if b() % 8 == 0 { vec![f32_near_midpoint(f.to_bits(), b())] } else { vec![f.to_string()] }
             }
             Kind::F64 => {
                 let f = f64::from_bits(num(&mut b) as u64);
